@@ -131,6 +131,15 @@ PROPS = {
         note="trusted: dropping the boxed future is exactly what select!/timeout do",
         assumptions=SIM_ASSUME,
     ),
+    "C15": dict(
+        built=True, level="exploration", design_ref="4/C15",
+        technique="runtime monitor: offline history checker over clock-stamped wire taps on both sides of a real proxy() future (exactly-once, verbatim incl. routing envelope, per-connection order, capture copies), driven by seeded schedules that make both sides ready in the same poll; real REQ -> ROUTER/proxy/DEALER -> REP chains over in-memory wires with seeded segmentation",
+        rule="scripted leg: 1..4 scripted REQ/DEALER clients x 1..3 scripted REP/DEALER workers x {no capture, PUSH capture with scripted PULL peer}, 5 pipelined requests per client of 6 payload shapes, seeded byte-release schedules incl. 'release everything on both sides, then poll the proxy once'; chain leg: 1..4 real REQ sockets and 1..3 real REP sockets connected through in-memory wires pumped in seeded chunk sizes {1,7,96,4096,all}; non-trivial = runs with more than one client or worker; distinct by seed; interleaving id = hash of scheduler actions",
+        text="Forwarding is checked message by message on every executed schedule; schedules are sampled, the select! tie-break inside proxy() is the library's own.",
+        note="trusted: tag checksum ties each forwarded message to the request/reply it came from",
+        assumptions=SIM_ASSUME + ["ROUTER/DEALER proxies only (the statement is about the request-reply chain); the proxy future with a capture socket is not Send and is polled on the driver thread"],
+        hang_is_violation=True,
+    ),
     "C16": dict(
         built=True, level="fault_enumeration", design_ref="4/C16",
         technique="runtime monitoring with injected connection faults through in-memory pipes: error-count, spin, routing and release monitors (pipe halves dropped = transport handle released) at logical quiescent points, healthy-peer exchange for isolation",
